@@ -356,6 +356,7 @@ type runState struct {
 	shutDone    chan struct{}
 	shutErr     error
 	mode        ShutMode // how this run's Shutdown is driven (declared by the target, corrected by observation)
+	declared    ShutMode // what the target declares for this event
 	modeNote    string
 
 	err      error
@@ -785,11 +786,13 @@ type driver struct {
 	halt   bool
 	// Shutdown behaviour observed to differ from the target's declaration
 	observed map[bool]ShutMode
+	aged     Exporter // job "aged": the exporter every script of the job runs on
 }
 
 func (d *driver) exec(sc script, cfg Config, realWait bool) *runState {
 	rs := &runState{tg: d.tg, word: sc.word, ev: sc.ev, uctx: newScriptCtx(), real: realWait, mode: d.mode(sc.ev)}
 	declared := rs.mode
+	rs.declared = d.tg.ShutdownMode(sc.ev.What == ShutdownExpired)
 	defer func() {
 		if rs.mode != declared { // keep what was observed for the rest of the job
 			d.observed[sc.ev.What == ShutdownExpired] = rs.mode
@@ -800,7 +803,11 @@ func (d *driver) exec(sc script, cfg Config, realWait bool) *runState {
 	if sc.ev.Kind == EvBeforeCall {
 		rs.trigger(nil)
 	}
-	rs.exp = d.tg.New(cfg)
+	if d.aged != nil {
+		rs.exp = d.aged // job "aged": one exporter, built a while ago, serves every script
+	} else {
+		rs.exp = d.tg.New(cfg)
+	}
 	if cfg.Interleave {
 		fc := cfg
 		fc.Foreign = true
@@ -991,6 +998,10 @@ func (d *driver) judge(sc script, cfg Config, ex expect, rs *runState) (key, msg
 		return "interleaved-export-failed", fmt.Sprintf("the second exporter's export (answered 200 at once) returned %v", rs.foreignErr)
 	case rs.afterShut != 0:
 		return "attempt-after-shutdown|in-flight export keeps re-sending", fmt.Sprintf("attempt %d was sent after Shutdown had returned", rs.afterShut)
+	case rs.shutStarted && !sc.ev.What.isCtx() && rs.declared.interrupts() && !rs.mode.interrupts():
+		// the harness drives the run on as observed (so that nothing deadlocks), but an exporter
+		// whose Shutdown is declared to abandon an export in progress has to do so
+		return "shutdown-does-not-interrupt-the-export-in-progress", fmt.Sprintf("%s: the context of the export in progress was not cancelled within %v (%s)", sc.ev, awaitTimeout, rs.modeNote)
 	}
 	// never waits less than the server-supplied delay before the next attempt
 	gap := map[int]time.Duration{}
@@ -1263,6 +1274,35 @@ func (d *driver) realwait() {
 	}
 }
 
+// aged: the elapsed-time budget belongs to one export call, not to the exporter. One exporter
+// with MaxElapsedTime = agedLimit is built, the harness really sleeps for longer than that (the
+// only real sleep of the check, once per exporter package), and then every script of length <= 2
+// without an event runs on that same exporter: the automaton's answers are unchanged -- retryable
+// answers are still retried, the (recorded, not slept) waits of one call add up to far less than
+// the limit in real time.
+const agedLimit = 3 * time.Second
+
+func (d *driver) agedJob() {
+	cfg := Config{Name: "aged-exporter", Enabled: true, Initial: 5 * time.Millisecond, MaxInterval: 30 * time.Millisecond, MaxElapsed: agedLimit}
+	d.r.Bound("aged_config", fmt.Sprintf("Enabled, MaxElapsedTime %v, exporter built %v before its exports", agedLimit, agedLimit+agedLimit/4))
+	d.aged = d.tg.New(cfg)
+	defer func() { _ = d.aged.Shutdown(context.Background()); d.aged = nil }()
+	time.Sleep(agedLimit + agedLimit/4)
+	d.visit(script{}, cfg, true)
+	for _, a := range d.alpha {
+		for _, b := range append([]*Sym{nil}, d.alpha...) {
+			if d.halt || d.r.Expired() {
+				return
+			}
+			w := []*Sym{a}
+			if b != nil {
+				w = append(w, b)
+			}
+			d.visit(script{word: w}, cfg, true)
+		}
+	}
+}
+
 var (
 	once sync.Once
 	dump = os.Getenv("VERIF_C14_DUMP") != ""
@@ -1277,7 +1317,7 @@ func Run(t *testing.T, tg Target) {
 			alpha = append(alpha, s)
 		}
 	}
-	names := []string{"short", "realwait"}
+	names := []string{"short", "realwait", "aged"}
 	for _, s := range alpha {
 		names = append(names, "first-"+s.Name)
 	}
@@ -1296,6 +1336,8 @@ func Run(t *testing.T, tg Target) {
 			d.short()
 		case job == "realwait":
 			d.realwait()
+		case job == "aged":
+			d.agedJob()
 		default:
 			for _, s := range alpha {
 				if "first-"+s.Name == job {
